@@ -443,6 +443,22 @@ def run(prog, rep):
         guard = bool(calls) and all(any(t0.endswith(".endswith('_cardinality')") and p0 for t0, p0 in e0.guards()) for e0 in calls)
         rep.check(bool(calls) and guard, "TAB-4", "%s reader parses *_cardinality entries" % fname, "ok",
                   "cardinality entries are no longer passed through parse_cardinality", r.where)
+    # TUP-1: the tuple text form is for filled n-tuple Properties only
+    rep.rule("TUP-1", "in the Property writer every call of odml_tuple_export lies on paths that know the value list to be non-empty (`<prop>.values` / "
+                      "the value being exported is truthy) and the dtype to end in '-tuple': the text form of an empty list is the string '[]', "
+                      "which loads back as one value")
+    pw = prog.func(WRITER_FUNCS["Property"])
+    texp = effect_calls(prog, pw, lambda c: call_name(c).split(".")[-1] == "odml_tuple_export")
+    for e0 in texp:
+        gs = e0.guards()
+        arg_t = unparse(e0.call.args[0]) if e0.call.args else "?"
+        filled = any(p0 and (t0.endswith(".values") or t0.endswith("._values") or t0 == arg_t) for t0, p0 in gs)
+        tup = any(p0 and t0.endswith(".endswith('-tuple')") for t0, p0 in gs)
+        rep.check(filled and tup, "TUP-1", "%s: %s" % (e0.func.short, unparse(e0.raw)[:50]), "only for filled n-tuple Properties",
+                  "odml_tuple_export is applied on a path that does not know the values to be non-empty and the dtype to be an n-tuple "
+                  "(known: %s): an empty tuple Property is written as the text '[]'" % [t0 for t0, _ in gs][-4:], where(e0.func, e0.raw),
+                  witness="Property(dtype='2-tuple') without values: JSON/YAML load gives values == [None]")
+    rep.floor("TUP-1", len(texp), 1, "tuple exports in the Property writer")
     from ..report import import_verdicts
     import_verdicts(prog, rep, "C07", ("DOM-5",), "GATE-1",
                     "the refusal of documents with validation errors in ODMLWriter.write_file looks at every error of the validation")
